@@ -145,15 +145,17 @@ fn main() {
             let mut items: Vec<(Value, Value, Value, Value)> = vec![]; // (what, obs, exp, dev)
             if let Some(chks) = step[chk_field].as_array() {
                 for c in chks {
-                    let qt = c["qt"].as_str().unwrap_or("");
+                    // the query as the model put it: spelled name `sq`, query route `rt`
+                    // (zone / tree), observation route `ob` (msg / get)
                     let obs = catch_unwind(AssertUnwindSafe(|| {
-                        if fresh { h.fresh_query(&c["qn"], qt) } else { h.reader_query(&r, &c["qn"], qt) }
+                        if fresh { h.fresh_query_as(c) } else { h.reader_query_as(&r, c) }
                     }))
                     .unwrap_or_else(|e| {
                         t.panics += 1;
                         json!({"panic": panic_msg(e)})
                     });
-                    items.push((json!({"q": [c["qn"], c["qt"]], "v": c["v"], "reader": if fresh { "fresh" } else { r.as_str() }}),
+                    items.push((json!({"q": [c["qn"], c["qt"]], "v": c["v"], "reader": if fresh { "fresh" } else { r.as_str() },
+                                       "as": [c["sq"], c["rt"], c["ob"]]}),
                                 obs, c["exp"].clone(), c["dev"].clone()));
                 }
             }
